@@ -120,8 +120,16 @@ def analyze(scenario, log):
     def guard_signalled(kind, idx, which, t, what):
         # C13: every condition observing this guard is signalled (cmb_condition_signal semantics): EVERY waiter whose predicate is
         # true now (and determinable from the log) is woken in this instant, wherever it stands in the condition's list
-        for (c, kd, ix, wh) in objs["subs"]:
-            if kd == kind and ix == idx and (wh == which or kind in (0, 1)):
+        direct = [c for (c, kd, ix, wh) in objs["subs"] if kd == kind and ix == idx and (wh == which or kind in (0, 1))]
+        reach, todo = [], list(direct)
+        while todo:                                  # a condition observing a condition (kind 5) gets the signal passed on
+            c = todo.pop()
+            if c in reach:
+                continue
+            reach.append(c)
+            todo += [c2 for (c2, kd, ix, wh) in objs["subs"] if kd == 5 and ix == c and c2 != c]
+        for c in reach:
+            if True:
                 for q, oc in open_call.items():
                     if oc[2][0] == "cwait" and int(oc[2][1]) == c and q not in dequeued and q not in ended:
                         sat, known = cond_pred(oc[2])
@@ -145,11 +153,16 @@ def analyze(scenario, log):
         for rw in res_waits:
             if rw[0] == q and rw[4] is None:
                 rw[4], rw[5], rw[6] = 10 ** 9, t, -99
+        # a process that ends drops its holdings one after the other (newest first), signalling each guard in turn; the log does
+        # not show the intermediate states, so the forwarded-signal clause is applied only when there is a single holding
+        n_hold = sum(1 for r in range(len(holder)) if holder[r] == q) + \
+            sum(1 for pl in range(len(pool_exp)) if pool_exp[pl][q] != 0 or q in pool_exp_unknown[pl])
         for r in range(len(holder)):
             if holder[r] == q:
                 holder[r] = None
                 res_changes[r].append((t, 0))
-                on_res_freed(r, t)
+                if n_hold == 1:
+                    on_res_freed(r, t)
         for pl in range(len(pool_exp)):
             if pool_exp[pl][q] != 0 or q in pool_exp_unknown[pl]:
                 ended_holding_pool[pl] = True        # a process ended while (possibly) holding units of this pool
@@ -614,7 +627,8 @@ def analyze(scenario, log):
                 bad("C08", "process %d is blocked putting into priority queue %d, which has space" % (pid, a[0]))
             if op == "cwait" and a[1] == 1 and a[2] < len(holder):
                 observed = any(c == a[0] and kd == 0 and ix == a[2] for (c, kd, ix, wh) in objs["subs"])
-                if observed and dump.get("R", {}).get(a[2], {}).get("holder") == "-1" and freed_at[a[2]] > call_idx.get(pid, 10 ** 9):
+                if observed and pid not in dequeued and dump.get("R", {}).get(a[2], {}).get("holder") == "-1" \
+                        and freed_at[a[2]] > call_idx.get(pid, 10 ** 9):
                     bad("C13", "process %d waits on condition %d for resource %d to be free; the condition observes that resource, which was "
                         "released after the wait began and is free, yet the waiter was not resumed" % (pid, a[0], a[2]))
             # armed timer that should have fired
